@@ -415,6 +415,7 @@ fn instantiate_struct_fields(
 }
 
 fn collect_runtime_types(
+    goenv: &GlobalGoEnv,
     file: &anf::File,
 ) -> (IndexSet<tast::Ty>, IndexSet<tast::Ty>, IndexSet<tast::Ty>) {
     struct Collector {
@@ -426,10 +427,29 @@ fn collect_runtime_types(
     impl Collector {
         fn collect_file(
             mut self,
+            goenv: &GlobalGoEnv,
             file: &anf::File,
         ) -> (IndexSet<tast::Ty>, IndexSet<tast::Ty>, IndexSet<tast::Ty>) {
             for item in &file.toplevels {
                 self.collect_fn(item);
+            }
+            // Type definitions are emitted whether or not a function uses them, so the
+            // helper types their fields mention need a declaration too.
+            for (name, def) in goenv.structs() {
+                if struct_def_is_emitted(name, def) {
+                    for (_, ty) in &def.fields {
+                        self.collect_type(ty);
+                    }
+                }
+            }
+            for (name, def) in goenv.enums() {
+                if enum_def_is_emitted(name, def) {
+                    for (_, fields) in &def.variants {
+                        for ty in fields {
+                            self.collect_type(ty);
+                        }
+                    }
+                }
             }
             (self.tuples, self.arrays, self.refs)
         }
@@ -603,7 +623,27 @@ fn collect_runtime_types(
         arrays: IndexSet::new(),
         refs: IndexSet::new(),
     }
-    .collect_file(file)
+    .collect_file(goenv, file)
+}
+
+fn struct_def_is_emitted(name: &TastIdent, def: &StructDef) -> bool {
+    let has_type_param = name.0.contains("TParam")
+        || !def.generics.is_empty()
+        || def
+            .fields
+            .iter()
+            .any(|(_, ty)| matches!(ty, tast::Ty::TParam { .. }));
+    !has_type_param
+}
+
+fn enum_def_is_emitted(name: &TastIdent, def: &EnumDef) -> bool {
+    // Skip generating Go types for generic-specialized enums whose fields still contain type parameters
+    let has_type_param = name.0.contains("TParam")
+        || def
+            .variants
+            .iter()
+            .any(|(_, fields)| fields.iter().any(|f| matches!(f, tast::Ty::TParam { .. })));
+    !has_type_param
 }
 
 #[derive(Default)]
@@ -2289,7 +2329,7 @@ pub fn go_file(
     let goenv = GlobalGoEnv::from_anf_env(anfenv);
     let mut all = Vec::new();
 
-    let (tuple_types, array_types, ref_types) = collect_runtime_types(&file);
+    let (tuple_types, array_types, ref_types) = collect_runtime_types(&goenv, &file);
 
     all.extend(runtime::make_runtime());
     all.extend(runtime::make_array_runtime(&array_types));
@@ -2406,13 +2446,7 @@ pub fn go_file(
 fn gen_type_definition(goenv: &GlobalGoEnv) -> Vec<goast::Item> {
     let mut defs = Vec::new();
     for (name, def) in goenv.structs() {
-        let has_type_param = name.0.contains("TParam")
-            || !def.generics.is_empty()
-            || def
-                .fields
-                .iter()
-                .any(|(_, ty)| matches!(ty, tast::Ty::TParam { .. }));
-        if has_type_param {
+        if !struct_def_is_emitted(name, def) {
             continue;
         }
 
@@ -2432,13 +2466,7 @@ fn gen_type_definition(goenv: &GlobalGoEnv) -> Vec<goast::Item> {
     }
 
     for (name, def) in goenv.enums() {
-        // Skip generating Go types for generic-specialized enums whose fields still contain type parameters
-        let has_type_param = name.0.contains("TParam")
-            || def
-                .variants
-                .iter()
-                .any(|(_, fields)| fields.iter().any(|f| matches!(f, tast::Ty::TParam { .. })));
-        if has_type_param {
+        if !enum_def_is_emitted(name, def) {
             continue;
         }
         let type_identifier_method = format!("is{}", go_ident(&name.0));
